@@ -45,3 +45,44 @@ func ZZ_C04_ValueHostile() {
 	}
 	zzvf.Reach("value-hostile")
 }
+
+// the 4-byte-length form of blobs and texts (more than 65535 bytes): a truncated encoding,
+// or a length field larger than what follows, is rejected — never answered with a shorter
+// object. 65540 bytes (zeros, first and last symbolic); cuts right after the header, in
+// the middle, one byte short; and the full encoding with an inflated length field.
+//vf: paths=200 steps=60000000 visits=3000000
+func ZZ_C04_LargeBlobTruncation() {
+	n := 65540
+	payload := make([]byte, n)
+	payload[0], payload[n-1] = zzvf.Byte(), zzvf.Byte()
+	var v Value
+	text := zzvf.Choose(2) == 1
+	if text {
+		for i := range payload {
+			payload[i] = 'a'
+		}
+		v = NewTextValue(string(payload))
+	} else {
+		v = NewBlobValue(payload)
+	}
+	out := io.NewDataOutputX()
+	WriteValue(out, v)
+	b := out.ToByteArray()
+	zzvf.Assert(len(b) == 1+5+n && b[1] == 254, "large-blob/uses-the-4-byte-length-form")
+	kind := "blob"
+	if text {
+		kind = "text"
+	}
+	switch c := zzvf.Choose(5); c {
+	case 4: // complete bytes, length field says one more
+		b2 := append([]byte{}, b...)
+		b2[5]++
+		p := zzvf.Panics(func() { ReadValue(io.NewDataInputX(b2)) })
+		zzvf.Assert(p, "large-blob/"+kind+"/inflated-length-is-rejected")
+	default:
+		cut := []int{6, 7, 30000, len(b) - 1}[c]
+		p := zzvf.Panics(func() { ReadValue(io.NewDataInputX(b[:cut])) })
+		zzvf.Assert(p, "large-blob/"+kind+"/prefix-is-rejected")
+	}
+	zzvf.Reach("large-blob-truncation")
+}
